@@ -154,6 +154,34 @@ static void work(JOB* j)
 static pthread_barrier_t bar;
 static void* thr(void* a) { pthread_barrier_wait(&bar); work((JOB*) a); return NULL; }
 
+
+// ---- library lifetime + faulting scan (YR_TRYCATCH exercised for real): the file is truncated by the scan's own callback
+// after it was mapped, so the next access of the module parsers raises SIGBUS inside the protected region.
+typedef struct { char path[600]; int rc; int done; } FAULT;
+static int fault_cb(YR_SCAN_CONTEXT* ctx, int msg, void* data, void* ud)
+{
+  FAULT* f = (FAULT*) ud;
+  if (msg == CALLBACK_MSG_IMPORT_MODULE && !f->done) { f->done = 1; if (truncate(f->path, 0) != 0) f->rc = -2; }
+  return CALLBACK_CONTINUE;
+}
+static const char* workdir;
+static void fault_scan(FAULT* f, int tag)
+{
+  snprintf(f->path, sizeof f->path, "%s/fault_%d_%d.bin", workdir, (int) getpid(), tag);
+  FILE* o = fopen(f->path, "wb"); if (!o) { f->rc = -3; return; }
+  fwrite(bufs[1], 1, blen[1], o); fclose(o);
+  f->done = 0; f->rc = -1;
+  YR_SCANNER* sc = NULL;
+  if (yr_scanner_create(rules, &sc) != ERROR_SUCCESS) { f->rc = -4; return; }
+  define_ext(sc, tag);
+  yr_scanner_set_callback(sc, fault_cb, f);
+  int rc = yr_scanner_scan_file(sc, f->path);
+  if (f->rc == -1) f->rc = rc;
+  yr_scanner_destroy(sc);
+  unlink(f->path);
+}
+static void* fault_thr(void* a) { pthread_barrier_wait(&bar); FAULT* f = (FAULT*) a; fault_scan(f, 100 + (int) (((uintptr_t) f / sizeof(FAULT)) % 100000)); return NULL; }
+
 static uint64_t rules_hash(void)
 {
   uint64_t h = 0xcbf29ce484222325ULL;
@@ -234,6 +262,7 @@ int main(int argc, char** argv)
 {
   if (argc < 2) DIE("usage: h_conc <workdir>");
   mkdir(argv[1], 0755);
+  workdir = argv[1];
   yr_initialize();
   { struct sigaction sa; memset(&sa, 0, sizeof sa); sa.sa_sigaction = app_handler; sa.sa_flags = SA_SIGINFO; sigemptyset(&sa.sa_mask); sigaction(SIGBUS, &sa, NULL); }
   make_buffers(argv[1]);
@@ -252,6 +281,34 @@ int main(int argc, char** argv)
   {
     int n = split(line, t, 8);
     if (n < 4) continue;
+    if (!strcmp(t[1], "L"))
+    {
+      // <id> L <nthreads> <seed>: the main thread takes a SECOND reference on the library (as another component of the program would), threads scan,
+      // the main thread drops that reference again, and afterwards the remaining user's scans must still be fault-protected
+      int nt = atoi(t[2]); if (nt < 1 || nt > 32) nt = 4;
+      FAULT alone; fault_scan(&alone, 1);
+      int rc_init = yr_initialize();
+      FAULT* fs = (FAULT*) calloc(nt, sizeof(FAULT)); pthread_t* th = (pthread_t*) calloc(nt, sizeof(pthread_t));
+      JOB* js = (JOB*) calloc(nt, sizeof(JOB));
+      pthread_barrier_init(&bar, NULL, nt);
+      for (int i = 0; i < nt; i++) { js[i] = (JOB){i, i % 4, 1, atoi(t[3]), (RES*) calloc(1, sizeof(RES))}; pthread_create(&th[i], NULL, thr, &js[i]); }
+      for (int i = 0; i < nt; i++) pthread_join(th[i], NULL);
+      pthread_barrier_destroy(&bar);
+      int rc_fin = yr_finalize();
+      pthread_barrier_init(&bar, NULL, nt);
+      for (int i = 0; i < nt; i++) pthread_create(&th[i], NULL, fault_thr, &fs[i]);
+      for (int i = 0; i < nt; i++) pthread_join(th[i], NULL);
+      pthread_barrier_destroy(&bar);
+      int okc = 0, other = 0, first_other = 0;
+      for (int i = 0; i < nt; i++) { if (fs[i].rc == ERROR_COULD_NOT_MAP_FILE) okc++; else { if (!other) first_other = fs[i].rc; other++; } }
+      printf("%s L n=%d nested_init=%s nested_finalize=%s fault_alone=%s fault_after=COULD_NOT_MAP_FILE:%d,other:%d first_other=%s handler_outside_bad=%d\n", t[0], nt,
+             errname(rc_init), errname(rc_fin), alone.rc < 0 ? "SETUP" : errname(alone.rc), okc, other, other ? (first_other < 0 ? "SETUP" : errname(first_other)) : "-",
+             app_handler_installed() ? 0 : 1);
+      fflush(stdout);
+      for (int i = 0; i < nt; i++) free(js[i].out);
+      free(fs); free(th); free(js);
+      continue;
+    }
     int nt = atoi(t[1]), iters = atoi(t[2]), seed = atoi(t[3]);
     int prot = ro_ok && !(n > 4 && !strcmp(t[4], "noprotect"));
     if (nt < 1 || nt > 64 || iters < 1 || iters > 64) { printf("%s BADOP\n", t[0]); continue; }
@@ -306,6 +363,7 @@ int main(int argc, char** argv)
   free(line);
   for (int b = 0; b < NBUF; b++) free(bufs[b]);
   if (keep_r1) { yr_free(keep_r1->no_required_strings); yr_free(keep_r1); }
+  printf("END finalize=%s\n", errname(yr_finalize()));
   // the relocated rule set lives in mappings and is deliberately not destroyed through yr_rules_destroy (its buffers are not heap blocks)
   return 0;
 }
